@@ -105,6 +105,16 @@ def run(ctx):
                 for bits in Q.seed_vectors(rng, d, 2 ** d if d <= 4 else (8 if quick else 64)):
                     cases.append({"fn": "qspp", "poly": [hexf(x) for x in p], "signal_operator": rng.choice(["Wx", "Wz"]), "bits": bits,
                                   "family": "real", "sub": "two-term", "timeout": 300})
+        # scaled single-term members c T_d (intermediate factors of the halving recursion carry genuinely small coefficients), every root choice
+        for d in ((3, 4, 5, 6) if quick else range(2, 11)):
+            for cval in ((0.5, 0.33) if quick else (0.5, 0.33, 0.3, 0.53, 0.7, 0.2)):
+                cvec = [0.0] * d + [cval]
+                p = [float(x) for x in Q.cheb2mono([Fraction(*float(x).as_integer_ratio()) for x in cvec])]
+                if not real_member(p):
+                    continue
+                for bits in Q.seed_vectors(rng, d, 2 ** d if d <= 6 else (16 if quick else 128)):
+                    cases.append({"fn": "qspp", "poly": [hexf(x) for x in p], "signal_operator": "Wx" if sum(bits) % 2 == 0 else "Wz", "bits": bits,
+                                  "family": "real", "sub": "single-term", "timeout": 300})
         # members next to a collision of two real roots of 1 - F F~ (generated with numpy on the implementation side)
         gen = run_impl([{"fn": "c03_bifurc", "d": d, "seed": rng.randrange(2 ** 31), "want": 9 if quick else 36, "attempts": 80 if quick else 200, "timeout": 600}
                         for d in ([2, 3, 4, 6, 8, 5, 7, 6, 8] if quick else list(range(2, 13)) * 2)], timeout=1200)
